@@ -484,6 +484,13 @@ def drive_machine(pid, sub, tier, n, seedval, stats, known):
     for opname, args in opdefs.items():
         setattr(Machine, 'op_' + opname, make_rule(opname, args))
 
+    # a history whose initial state could not be built (e.g. the solver did not converge) has no applicable operation:
+    # give Hypothesis a rule that does nothing so that it can finish the (empty) history
+    def _idle(self):
+        pass
+    _idle = precondition(lambda self: self.state is None or not any(sub.precondition(self.state, o) for o in opdefs))(rule()(_idle))
+    Machine.op__idle = _idle
+
     try:
         run_state_machine_as_test(seed(seedval)(Machine),
                                   settings=_settings(n, sub.shrink[tier], steps=sub.steps[tier]))
